@@ -68,6 +68,58 @@ def ingest(prop, wt, n):
     return 0
 
 
+ALL_PROPS = [f"C{i:02d}" for i in range(1, 21)]
+
+
+def ingest_harmless(wt, n):
+    """a behaviour-preserving refactoring from a sub-agent: patch applies, the tests pass; kept as seeded/harmless-<k>/."""
+    patch, meta = os.path.join(wt, f"patch{n}.diff"), os.path.join(wt, f"meta{n}.json")
+    if not os.path.exists(patch):
+        print("missing", patch)
+        return 1
+    sh(["git", "-C", wt, "checkout", "--", "."])
+    rc, out = sh(["git", "-C", wt, "apply", patch])
+    if rc:
+        print("patch does not apply:", out)
+        return 1
+    rc, tests = sh([PY, "-m", "pytest", "-q", "-p", "no:cacheprovider", "-x"], cwd=wt, timeout=900)
+    tests_tail = tests.strip().splitlines()[-1] if tests.strip() else ""
+    sh(["git", "-C", wt, "checkout", "--", "."])
+    if "221 passed" not in tests_tail:
+        print("REJECT", tests_tail)
+        return 1
+    k = 1
+    while os.path.exists(os.path.join(SEEDED, f"harmless-{k}")):
+        k += 1
+    dst = os.path.join(SEEDED, f"harmless-{k}")
+    os.makedirs(dst)
+    shutil.copy(patch, os.path.join(dst, "patch.diff"))
+    m = json.load(open(meta)) if os.path.exists(meta) else {}
+    m.update({"id": f"harmless-{k}", "property": None, "harmless": True,
+              "origin": "fresh sub-agent asked for a behaviour-preserving refactoring of named files (no property text, nothing from /verif)",
+              "verified": {"tests": tests_tail, "at": time.strftime("%Y-%m-%d")}})
+    json.dump(m, open(os.path.join(dst, "meta.json"), "w"), indent=1)
+    print("kept as", dst)
+    return 0
+
+
+def relevant_props(patch):
+    """the properties whose anchor files the patch touches (for everything else the code under check is byte-identical to
+    the unchanged tree, on which those checks are run anyway)."""
+    import importlib
+    sys.path.insert(0, VERIF)
+    files = set()
+    for line in open(patch):
+        if line.startswith("+++ b/"):
+            files.add(line[6:].strip())
+    out = []
+    for pid in ALL_PROPS:
+        mod = importlib.import_module("harness.props." + pid.lower())
+        if files & set(mod.PROP.anchors):
+            out.append(pid)
+    return out
+
+
 def run(sid, tier="quick", props=None):
     d = os.path.join(SEEDED, sid)
     meta = json.load(open(os.path.join(d, "meta.json")))
@@ -81,6 +133,8 @@ def run(sid, tier="quick", props=None):
         return 2
     results = {}
     try:
+        if not props and meta.get("harmless"):
+            props = relevant_props(os.path.join(d, "patch.diff"))
         for prop in (props or [meta["property"]]):
             t0 = time.time()
             rc, out = sh([os.path.join(VERIF, "check"), prop, "--tier", tier], cwd=VERIF, timeout=3600)
@@ -135,6 +189,12 @@ def _table(f):
         m = json.load(open(os.path.join(d, "meta.json")))
         r = json.load(open(os.path.join(d, "result.json"))) if os.path.exists(os.path.join(d, "result.json")) else {}
         cells = []
+        if m.get("harmless"):
+            alarms = [p_ for p_, x in r.items() if x["exit"] != 0]
+            cells.append(f"{len(r)} checks run, " + ("none reports" if not alarms else "REPORTED by " + ", ".join(
+                f"{p_} ({(r[p_]['replay'] or {}).get('type', 'exit ' + str(r[p_]['exit']))})" for p_ in alarms)))
+            rows.append(f"| {sid} | {' '.join(str(m.get('summary', '')).replace('|', '/').split())[:150]} | (behaviour-preserving) | {'; '.join(cells)} |")
+            continue
         for prop, x in r.items():
             how = "missed" if x["exit"] == 0 else (x["replay"] or {}).get("type", "?") if x["exit"] == 1 else f"exit {x['exit']}"
             cells.append(f"{prop}: {how}")
@@ -150,6 +210,8 @@ if __name__ == "__main__":
     a = sys.argv[1:]
     if a[0] == "ingest":
         sys.exit(ingest(a[1], a[2], int(a[3])))
+    if a[0] == "ingest-harmless":
+        sys.exit(ingest_harmless(a[1], int(a[2])))
     if a[0] == "run":
         tier = a[a.index("--tier") + 1] if "--tier" in a else "quick"
         props = a[a.index("--props") + 1].split(",") if "--props" in a else None
